@@ -21,9 +21,14 @@
 
   Canonical N-Quads (§5 "Serialization", RDF 1.2 N-Quads "canonical form"): no optional white
   space, one space between terms, ` .\n` at the end; IRIs written raw between `<` `>`; literals:
-  `\b \t \n \f \r \" \\` as ECHAR, every other code point in U+0000–U+001F and U+007F as `\uXXXX`
-  with upper-case hex, everything else raw; datatype xsd:string omitted; language tag after `@`.
-  Checked against W3C vector test060 (harness, labelled test).
+  `\b \t \n \f \r \" \\` as ECHAR; every other code point in U+0000–U+001F, U+007F, and the
+  "characters not matching the Char production from XML 1.1" as `\uXXXX` with upper-case hex;
+  everything else raw; datatype xsd:string omitted; language tag after `@`.
+  CHOICE RECORDED: of the code points outside XML 1.1 `Char` (U+0000, surrogates, U+FFFE, U+FFFF) a
+  string can only contain U+FFFE and U+FFFF beyond the C0 range; this Spec follows the text and
+  escapes them (`\uFFFE`, `\uFFFF`).  No shipped W3C vector contains either code point (neither raw
+  nor escaped), so the vectors do not decide this clause; everything else in this paragraph is
+  decided by vector test060 (harness, labelled test).
 -/
 import RdfModel.Model.Term
 import RdfModel.Model.StrOrd
@@ -42,7 +47,7 @@ def escLitRune (c : Nat) : Str :=
   else if c = 0x0d then [0x5c, 0x72]
   else if c = 0x22 then [0x5c, 0x22]
   else if c = 0x5c then [0x5c, 0x5c]
-  else if c ≤ 0x1f ∨ c = 0x7f then 0x5c :: 0x75 :: hex4 c
+  else if c ≤ 0x1f ∨ c = 0x7f ∨ c = 0xFFFE ∨ c = 0xFFFF then 0x5c :: 0x75 :: hex4 c
   else [c]
 
 def iriRef (v : Str) : Str := 0x3c :: (v ++ [0x3e])
